@@ -1,6 +1,6 @@
 (* PV.C02.Examples — non-vacuity: concrete non-trivial inputs meeting the hypotheses of the theorems. *)
 From Coq Require Import QArith List Bool PArith Arith.
-From PV Require Import Base.PyData Base.Expr Base.Interp Base.Stmts C02.Model C02.CondPrint C02.Refuted C02.Remap C02.PrintSeq C02.IndexDiff C02.KeepText C02.Read.
+From PV Require Import Base.PyData Base.Expr Base.Interp Base.Stmts C02.Model C02.CondPrint C02.Refuted C02.Remap C02.PrintSeq C02.IndexDiff C02.KeepText C02.Read C02.KRename.
 Import ListNotations.
 
 (* diff on lists that differ in the middle, with a common head and tail: all three operations occur *)
@@ -93,7 +93,7 @@ Example keeps_text_example :
 Proof. vm_compute. repeat split. Qed.
 
 (* the reader inverts the reference emitter on a program with all statement forms, nested arithmetic, a power,
-   a function call, a unary minus and all three logical connectives (an instance; the general theorem is not proved) *)
+   a function call, a unary minus and all three logical connectives (an instance of read_emit; wf_prog is satisfiable) *)
 Definition read_prog : list nmstmt :=
   [NS (SAssign sX (Add (Mul (Sym sA) (Neg (Sym sB))) (Fn2 5%positive (Sym sA) (Num 2))));
    NS (SIf (CAnd (CRel OGt (Sym sA) (Num 0)) (CNot (CRel OLe (Sym sB) (Sym sA)))) sX (Fn1 1%positive (Div (Sym sA) (Sym sC))));
@@ -107,4 +107,20 @@ Proof. split; vm_compute; reflexivity. Qed.
 Example read_precedence_example :
   read [KSym sX; KEq; KMinus; KSym sA; KPow; KNum 2; KPlus; KSym sB; KDiv; KSym sA; KTimes; KSym sB; KMinus; KNum 2; KNl] =
   Some [NS (SAssign sX (Add (Add (Neg (Fn2 5%positive (Sym sA) (Num 2))) (Mul (Div (Sym sB) (Sym sA)) (Sym sB))) (Neg (Num 2))))].
+Proof. vm_compute. reflexivity. Qed.
+
+(* the printed code of a Piecewise assignment is emittable: roundtrip_stmt's hypotheses are satisfiable *)
+Example roundtrip_example :
+  match print_stmt [] sX pw_block with
+  | Some l => wf_prog l = true /\ read (emit l) = Some l
+  | None => False
+  end.
+Proof. vm_compute. split; reflexivity. Qed.
+
+(* CENTRAL(1), METABOLITE(2), OUTPUT(3) gain a DEPOT in front: remap 1->2, 2->3, 3->4; flows 2->3 and 3->(last = 3):
+   K12 becomes K23; K10 and K20 are renamed because the output test looks at the LAST compartment (index ncs = 3)
+   instead of the output: K10 -> K20 although compartment 2 has no flow to the output *)
+Example k_rename_example :
+  k_rename_loop 3 [(1, 2); (2, 3); (3, 4)]%nat 3 (fun a b => (Nat.eqb a 2 && Nat.eqb b 3) || (Nat.eqb a 3 && Nat.eqb b 3)) =
+  [((1, 0), Some (2, 0)); ((1, 2), Some (2, 3)); ((2, 0), Some (3, 0))]%nat.
 Proof. vm_compute. reflexivity. Qed.
